@@ -14,8 +14,15 @@ import time
 VERIF_ROOT = os.path.dirname(os.path.dirname(os.path.abspath(__file__)))
 REPO = os.environ.get("VT_REPO", "/repo")
 PY = "/venv/bin/python" if os.path.exists("/venv/bin/python") else sys.executable
-EVIDENCE_DIR = os.path.join(VERIF_ROOT, "evidence")
-REPLAY_DIR = os.path.join(VERIF_ROOT, "replay")
+if os.path.realpath(REPO) == "/repo":
+    EVIDENCE_DIR = os.path.join(VERIF_ROOT, "evidence")
+    REPLAY_DIR = os.path.join(VERIF_ROOT, "replay")
+else:
+    # runs against another tree (seeded / mutant validation) must not overwrite the evidence of /repo
+    import tempfile as _tf
+    _alt = os.path.join(_tf.gettempdir(), "vt_alt_" + hashlib.sha1(os.path.realpath(REPO).encode()).hexdigest()[:8])
+    EVIDENCE_DIR = os.path.join(_alt, "evidence")
+    REPLAY_DIR = os.path.join(_alt, "replay")
 GUARD = "TEALER_VERIF"
 
 _tealer_loaded = False
